@@ -8,6 +8,7 @@ import (
 	"bytes"
 	stdjson "encoding/json"
 	"errors"
+	"io"
 	"testing"
 
 	json "github.com/go-json-experiment/json"
@@ -290,5 +291,43 @@ func TestF16DepthLimitEmptyInnermost(t *testing.T) {
 	}
 	if _, err := json.Marshal(s); err == nil {
 		t.Error("Marshal of 10001 nested typed slices (innermost empty) returned nil error")
+	}
+}
+
+// F17: Decoder.ReadValue over a chunked reader: consumeObject kept a slice of the member name
+// pointing into the decode buffer across fetches that compact the buffer, so the JSONPointer
+// of an error raised deeper inside the value named the enclosing member with stale bytes.
+type f17Chunks struct {
+	data []byte
+	pos  int
+	n    int
+}
+
+func (c *f17Chunks) Read(p []byte) (int, error) {
+	if c.pos >= len(c.data) {
+		return 0, io.EOF
+	}
+	n := min(c.n, len(p), len(c.data)-c.pos)
+	copy(p, c.data[c.pos:c.pos+n])
+	c.pos += n
+	return n, nil
+}
+
+func TestF17StaleNameInErrorPointer(t *testing.T) {
+	in := []byte(`-0 {"outer":{"x":null,"dup":[],"dup":1e308},"y":[[],[]]}`)
+	const want = "/outer/dup"
+	for n := 1; n <= len(in); n++ {
+		d := jsontext.NewDecoder(&f17Chunks{data: in, n: n})
+		var err error
+		for err == nil {
+			_, err = d.ReadValue()
+		}
+		var se *jsontext.SyntacticError
+		if !errors.As(err, &se) {
+			t.Fatalf("chunk size %d: %v", n, err)
+		}
+		if string(se.JSONPointer) != want {
+			t.Errorf("chunk size %d: JSONPointer = %q, want %q", n, se.JSONPointer, want)
+		}
 	}
 }
